@@ -14,13 +14,18 @@
 (*                     resumes: Requests::take, then Loader::load if any    *)
 (*   LoaderReturn(b,ok) Loader::load of batch b resolves and do_load        *)
 (*                     resumes: cache fill, fan-out to the waiters          *)
-(*   Deliver(r)        the waiting load_many future is polled and returns   *)
+(*                     (the waiter's own next poll returns the value sent;  *)
+(*                     it reads nothing else, so it is part of this step)   *)
 (*   Cancel(r)         the waiting load_many future is dropped              *)
 (* The entry lock of the per-type Requests makes each of these atomic.      *)
+(* History that can no longer matter (finished requests, returned batches)  *)
+(* is forgotten so that TLC can merge states; the clauses of the property   *)
+(* that speak about a completion are therefore evaluated in the step that   *)
+(* completes the request and latched in the flags `exact` and `bounded`.    *)
 (*                                                                         *)
 (* The loader stamps every value with its call number (batch id), values    *)
 (* fed before the run are 100 + key, so the origin of a value is visible.   *)
-(* Keys in Holes are unknown to the loader (no value returned).             *)
+(* Keys in conf.holes are unknown to the loader (no value returned).        *)
 (***************************************************************************)
 EXTENDS CacheRef, TLC
 
@@ -30,7 +35,9 @@ EXTENDS CacheRef, TLC
 (*   rq  = [ks: requested keys, snap: cache contents when the load was issued,   *)
 (*          at: number of loader calls made before the load was issued]          *)
 (*   res = [err: the load failed, vals: the set of <<key, value>> it returned]    *)
-(*   B   = loader calls so far, B[b] = [keys, ret: "none"|"ok"|"err", vals]      *)
+(*   B   = loader calls, a function b -> [keys, ret: "none"|"ok"|"err", vals]    *)
+(*         from call numbers (all of them, or at least every call that has not   *)
+(*         returned before the request completes)                                *)
 (* "every load completes with exactly the values the loader returned, or the     *)
 (*  cache held, for its requested keys, or with the loader's error for the batch *)
 (*  it joined.  Every requested key not served from the cache is passed to the   *)
@@ -39,13 +46,13 @@ InSnap(rq, k) == \E p \in rq.snap : p[1] = k
 Served(rq, rs, B) ==
   LET res == rs.vals IN
   IF rs.err
-  THEN \E b \in (rq.at + 1)..Len(B) :
+  THEN \E b \in {x \in DOMAIN B : x > rq.at} :
           /\ B[b].ret = "err" /\ B[b].keys \cap rq.ks # {}
           /\ \A k \in rq.ks : InSnap(rq, k) \/ k \in B[b].keys
   ELSE /\ \A p \in res : p[1] \in rq.ks
        /\ \A p, q \in res : p[1] = q[1] => p = q
        /\ \/ {p[1] : p \in res} = rq.ks /\ res \subseteq rq.snap            \* the cache held every key
-          \/ \E b \in (rq.at + 1)..Len(B) :
+          \/ \E b \in {x \in DOMAIN B : x > rq.at} :
                /\ B[b].ret = "ok"
                /\ \A k \in rq.ks :
                     \/ \E p \in res : p[1] = k /\ p \in rq.snap                  \* the cache held it
@@ -59,7 +66,7 @@ CONSTANTS Keys,        \* key universe (naturals)
           MaxBatches,  \* set of max_batch_size values to explore
           Modes,       \* subset of {"none", "map", "lru1", "lru2", "mapoff"}
           Prefeds,     \* set of key sets fed into the cache before the run
-          Holes,       \* keys unknown to the loader
+          HoleSets,    \* set of key sets unknown to the loader (it returns no value for them)
           Errs,        \* BOOLEAN: the loader may fail a batch
           Cancels      \* BOOLEAN: waiters may be dropped
 Reqs == 1..NReq
@@ -71,54 +78,57 @@ ModeCfg(m) == CASE m = "none"   -> [kind |-> "none", cap |-> 1, on |-> TRUE]
                 [] m = "lru3"   -> [kind |-> "lru",  cap |-> 3, on |-> TRUE]
                 [] m = "mapoff" -> [kind |-> "map",  cap |-> 1, on |-> FALSE]   \* enable_all_cache(false)
 
-VARIABLES conf,      \* [mb, mode, prefed]: the configuration of this run (chosen in Init)
+VARIABLES conf,      \* [mb, mode, prefed, holes]: the configuration of this run (chosen in Init)
           keys,      \* Requests.keys: keys awaiting dispatch
           pending,   \* Requests.pending: Seq of [r, ks (keys it waits for), hits (values taken from the cache)]
           cache,     \* the cache storage
           timers,    \* ids of start_fetch tasks whose delay has not elapsed
           tasks,     \* spawned immediate_load tasks not yet run: [t, keys, waiters]
           inflight,  \* batches at the loader: [b, keys, waiters]
-          status,    \* r -> "idle" | "waiting" | "ready" (result sent, not yet polled) | "done" | "cancelled"
-          result,    \* r -> [err, vals]: failed, or the set of <<key, value>> returned (NoRes until then)
-          calls,     \* Loader::load call log: Seq of key sets; the batch id is the index
+          status,    \* r -> "idle" | "waiting" | "done" | "cancelled"
+          ncalls,    \* number of Loader::load calls so far; a batch id is its call number
           nextTask,  \* spawn counter
-          req,       \* ghost: r -> [ks, snap, at] as the property sees the request
-          ret,       \* ghost: b -> "none" | "ok" | "err"
-          largest    \* ghost: size of the largest single request so far
-vars == <<conf, keys, pending, cache, timers, tasks, inflight, status, result, calls, nextTask, req, ret, largest>>
+          req,       \* ghost: r -> [ks, snap, at] as the property sees a waiting request
+          largest,   \* ghost: size of the largest single request so far
+          exact,     \* latch: every completion so far satisfied Served
+          bounded    \* latch: every batch so far was a non-empty key set within the bound
+vars == <<conf, keys, pending, cache, timers, tasks, inflight, status, ncalls, nextTask, req, largest, exact, bounded>>
 
 Cfg == [kind |-> ModeCfg(conf.mode).kind, cap |-> ModeCfg(conf.mode).cap, keys |-> Keys]
 CacheOn == ModeCfg(conf.mode).on
 RECURSIVE SortedSeq(_)
 SortedSeq(S) == IF S = {} THEN <<>> ELSE LET m == CHOOSE x \in S : \A y \in S : x <= y IN <<m>> \o SortedSeq(S \ {m})
 FedVal(k) == 100 + k
-Vals(b, ks) == {<<k, b>> : k \in ks \ Holes}             \* what the loader returns for batch b
-Batches == [b \in 1..Len(calls) |-> [keys |-> calls[b], ret |-> ret[b], vals |-> Vals(b, calls[b])]]
+Vals(b, ks) == {<<k, b>> : k \in ks \ conf.holes}             \* what the loader returns for batch b
+NoReq == [ks |-> {}, snap |-> {}, at |-> 0]
 
-Init == /\ conf \in [mb : MaxBatches, mode : Modes, prefed : Prefeds]
+Init == /\ conf \in [mb : MaxBatches, mode : Modes, prefed : Prefeds, holes : HoleSets]
         /\ keys = {} /\ pending = <<>> /\ timers = {} /\ tasks = {} /\ inflight = {}
         /\ cache = LET c0 == [kind |-> ModeCfg(conf.mode).kind, cap |-> ModeCfg(conf.mode).cap, keys |-> Keys]
                        s  == SortedSeq(conf.prefed) IN
                    PutSeq(c0, EmptyCache(c0), s, [i \in 1..Len(s) |-> FedVal(s[i])], 1)
-        /\ status = [r \in Reqs |-> "idle"] /\ result = [r \in Reqs |-> NoRes]
-        /\ calls = <<>> /\ nextTask = 1
-        /\ req = [r \in Reqs |-> [ks |-> {}, snap |-> {}, at |-> 0]] /\ ret = <<>> /\ largest = 0
+        /\ status = [r \in Reqs |-> "idle"] /\ ncalls = 0 /\ nextTask = 1
+        /\ req = [r \in Reqs |-> NoReq] /\ largest = 0 /\ exact = TRUE /\ bounded = TRUE
+
+(* The cache split of load_many: keys are looked up in the order given (ascending here). *)
+Split(ks) == IF CacheOn THEN Lookup(Cfg, [c |-> cache, hits |-> {}, miss |-> {}], SortedSeq(ks), 1)
+                        ELSE [c |-> cache, hits |-> {}, miss |-> ks]
 
 (* load_many, first poll.  Requests are issued in the order 1, 2, .. (ids are only labels). *)
 LoadMany(r, ks) ==
   /\ status[r] = "idle" /\ \A q \in Reqs : q < r => status[q] # "idle"
   /\ LET prev == Cardinality(keys)
-         lk   == IF CacheOn THEN Lookup(Cfg, [c |-> cache, hits |-> {}, miss |-> {}], SortedSeq(ks), 1)
-                            ELSE [c |-> cache, hits |-> {}, miss |-> ks]
+         lk   == Split(ks)
          keys2 == keys \cup lk.miss
          pend2 == Append(pending, [r |-> r, ks |-> lk.miss, hits |-> lk.hits])
+         rq    == [ks |-> ks, snap |-> Entries(Cfg, cache), at |-> ncalls]
      IN /\ cache' = lk.c
-        /\ req' = [req EXCEPT ![r] = [ks |-> ks, snap |-> Entries(Cfg, cache), at |-> Len(calls)]]
         /\ largest' = IF Cardinality(ks) > largest THEN Cardinality(ks) ELSE largest
         /\ IF lk.miss = {}
-           THEN /\ status' = [status EXCEPT ![r] = "done"] /\ result' = [result EXCEPT ![r] = OkRes(lk.hits)]   \* early return
-                /\ UNCHANGED <<keys, pending, timers, tasks, nextTask>>
-           ELSE /\ status' = [status EXCEPT ![r] = "waiting"] /\ UNCHANGED result
+           THEN /\ status' = [status EXCEPT ![r] = "done"]                                  \* early return with lk.hits
+                /\ exact' = (exact /\ Served(rq, OkRes(lk.hits), <<>>))
+                /\ UNCHANGED <<keys, pending, timers, tasks, nextTask, req>>
+           ELSE /\ status' = [status EXCEPT ![r] = "waiting"] /\ req' = [req EXCEPT ![r] = rq] /\ UNCHANGED exact
                 /\ IF Cardinality(keys2) >= conf.mb
                    THEN /\ tasks' = tasks \cup {[t |-> nextTask, keys |-> keys2, waiters |-> pend2]}    \* ImmediateLoad(take())
                         /\ keys' = {} /\ pending' = <<>> /\ nextTask' = nextTask + 1 /\ UNCHANGED timers
@@ -126,54 +136,59 @@ LoadMany(r, ks) ==
                    THEN /\ timers' = timers \cup {nextTask} /\ nextTask' = nextTask + 1                  \* StartFetch
                         /\ keys' = keys2 /\ pending' = pend2 /\ UNCHANGED tasks
                    ELSE /\ keys' = keys2 /\ pending' = pend2 /\ UNCHANGED <<timers, tasks, nextTask>>    \* Delay
-  /\ UNCHANGED <<conf, inflight, calls, ret>>
+  /\ UNCHANGED <<conf, inflight, ncalls, bounded>>
 
-Dispatch(ks, ws) == /\ calls' = Append(calls, ks) /\ ret' = Append(ret, "none")
-                    /\ inflight' = inflight \cup {[b |-> Len(calls) + 1, keys |-> ks, waiters |-> ws]}
+(* do_load calls Loader::load(keys): "no batch contains a key twice" (a set), and the size bound *)
+Dispatch(ks, ws) == /\ ncalls' = ncalls + 1
+                    /\ inflight' = inflight \cup {[b |-> ncalls + 1, keys |-> ks, waiters |-> ws]}
+                    /\ bounded' = (bounded /\ ks # {} /\ ks \subseteq Keys /\ BoundOk(Cardinality(ks), conf.mb, largest))
 
 RunTask(t) ==
   /\ t \in tasks /\ tasks' = tasks \ {t} /\ Dispatch(t.keys, t.waiters)
-  /\ UNCHANGED <<conf, keys, pending, cache, timers, status, result, nextTask, req, largest>>
+  /\ UNCHANGED <<conf, keys, pending, cache, timers, status, nextTask, req, largest, exact>>
 
 TimerFire(t) ==
   /\ t \in timers /\ timers' = timers \ {t}
-  /\ IF keys = {} THEN UNCHANGED <<keys, pending, calls, ret, inflight>>
+  /\ IF keys = {} THEN UNCHANGED <<keys, pending, ncalls, inflight, bounded>>
      ELSE Dispatch(keys, pending) /\ keys' = {} /\ pending' = <<>>
-  /\ UNCHANGED <<conf, cache, tasks, status, result, nextTask, req, largest>>
+  /\ UNCHANGED <<conf, cache, tasks, status, nextTask, req, largest, exact>>
 
-Waiters(bt) == {bt.waiters[i].r : i \in 1..Len(bt.waiters)}
-WaiterOf(bt, r) == bt.waiters[CHOOSE i \in 1..Len(bt.waiters) : bt.waiters[i].r = r]
+(* What do_load sends to the waiters of batch bt that still listen (a dropped receiver makes tx.send fail; ignored). *)
+Delivered(bt, ok) ==
+  {[r |-> bt.waiters[i].r,
+    res |-> IF ok THEN OkRes(bt.waiters[i].hits \cup Vals(bt.b, bt.waiters[i].ks)) ELSE ErrRes]
+     : i \in {j \in 1..Len(bt.waiters) : status[bt.waiters[j].r] = "waiting"}}
+(* The loader calls a completing request can still name: the batches at the loader, bt among them. *)
+Live(bt, ok) == [b \in {x.b : x \in inflight} |->
+                   LET x == CHOOSE y \in inflight : y.b = b IN
+                   [keys |-> x.keys, vals |-> Vals(b, x.keys), ret |-> IF b # bt.b THEN "none" ELSE IF ok THEN "ok" ELSE "err"]]
 
 LoaderReturn(bt, ok) ==
   /\ bt \in inflight /\ inflight' = inflight \ {bt} /\ (ok \/ Errs)
-  /\ ret' = [ret EXCEPT ![bt.b] = IF ok THEN "ok" ELSE "err"]
-  /\ LET live == {r \in Waiters(bt) : status[r] = "waiting"} IN      \* a dropped receiver makes tx.send fail, ignored
-     /\ status' = [r \in Reqs |-> IF r \in live THEN "ready" ELSE status[r]]
-     /\ result' = [r \in Reqs |-> IF r \notin live THEN result[r]
-                                  ELSE IF ~ok THEN ErrRes
-                                  ELSE OkRes(WaiterOf(bt, r).hits \cup Vals(bt.b, WaiterOf(bt, r).ks))]
-  /\ IF ok THEN cache' \in Fills(Cfg, cache, bt.keys \ Holes, [k \in bt.keys \ Holes |-> bt.b], CacheOn)
+  /\ LET dl == Delivered(bt, ok) IN
+     /\ status' = [r \in Reqs |-> IF \E d \in dl : d.r = r THEN "done" ELSE status[r]]
+     /\ req' = [r \in Reqs |-> IF \E d \in dl : d.r = r THEN NoReq ELSE req[r]]
+     /\ exact' = (exact /\ \A d \in dl : Served(req[d.r], d.res, Live(bt, ok)))
+  /\ IF ok THEN cache' \in Fills(Cfg, cache, bt.keys \ conf.holes, [k \in bt.keys \ conf.holes |-> bt.b], CacheOn)
            ELSE UNCHANGED cache
-  /\ UNCHANGED <<conf, keys, pending, timers, tasks, calls, nextTask, req, largest>>
+  /\ UNCHANGED <<conf, keys, pending, timers, tasks, ncalls, nextTask, largest, bounded>>
 
-Deliver(r) == /\ status[r] = "ready" /\ status' = [status EXCEPT ![r] = "done"]
-              /\ UNCHANGED <<conf, keys, pending, cache, timers, tasks, inflight, result, calls, nextTask, req, ret, largest>>
-Cancel(r)  == /\ Cancels /\ status[r] \in {"waiting", "ready"} /\ status' = [status EXCEPT ![r] = "cancelled"]
-              /\ UNCHANGED <<conf, keys, pending, cache, timers, tasks, inflight, result, calls, nextTask, req, ret, largest>>
+Cancel(r)  == /\ Cancels /\ status[r] = "waiting" /\ status' = [status EXCEPT ![r] = "cancelled"]
+              /\ req' = [req EXCEPT ![r] = NoReq]
+              /\ UNCHANGED <<conf, keys, pending, cache, timers, tasks, inflight, ncalls, nextTask, largest, exact, bounded>>
 
 Load     == \E r \in Reqs : \E ks \in (SUBSET Keys) \ {{}} : LoadMany(r, ks)
 Run      == \E t \in tasks : RunTask(t)
 Fire     == \E t \in timers : TimerFire(t)
 Return   == \E bt \in inflight : \E ok \in BOOLEAN : LoaderReturn(bt, ok)
-DeliverA == \E r \in Reqs : Deliver(r)
 CancelA  == \E r \in Reqs : Cancel(r)
-Next == Load \/ Run \/ Fire \/ Return \/ DeliverA \/ CancelA
-(* "given that spawned tasks and timers run": weak fairness of tasks, timers, the loader and the waiter's own poll *)
-Spec == Init /\ [][Next]_vars /\ WF_vars(Run) /\ WF_vars(Fire) /\ WF_vars(Return) /\ WF_vars(DeliverA)
+Next == Load \/ Run \/ Fire \/ Return \/ CancelA
+(* "given that spawned tasks and timers run": weak fairness of tasks, timers and the loader *)
+Spec == Init /\ [][Next]_vars /\ WF_vars(Run) /\ WF_vars(Fire) /\ WF_vars(Return)
 
 --------------------------------------------------------------------------------
 (* Invariants *)
-ResultsExact == \A r \in Reqs : status[r] \in {"ready", "done"} => Served(req[r], result[r], Batches)
+ResultsExact == exact
 (* every requested key not served from the cache is, at any time, on its way to the loader together with its waiter *)
 Holders == {[keys |-> keys, waiters |-> pending]} \cup {[keys |-> t.keys, waiters |-> t.waiters] : t \in tasks}
              \cup {[keys |-> bt.keys, waiters |-> bt.waiters] : bt \in inflight}
@@ -182,8 +197,9 @@ EveryKeyLoaded ==
     \E hd \in Holders : \E i \in 1..Len(hd.waiters) :
        /\ hd.waiters[i].r = r /\ hd.waiters[i].ks \subseteq hd.keys
        /\ \A k \in req[r].ks : k \in hd.waiters[i].ks \/ \E p \in hd.waiters[i].hits : p[1] = k /\ p \in req[r].snap
-NoDuplicateKeyInBatch == \A b \in 1..Len(calls) : calls[b] # {} /\ calls[b] \subseteq Keys   \* batches are sets by construction; never empty
-BatchBound == \A b \in 1..Len(calls) : BoundOk(Cardinality(calls[b]), conf.mb, largest)
+(* batches are key sets by construction (HashSet); the latch adds: never empty, within the bound *)
+NoDuplicateKeyInBatch == \A bt \in inflight : bt.keys # {} /\ bt.keys \subseteq Keys
+BatchBound == bounded
 TimerCoversPending == /\ keys # {} => timers # {}
                       /\ keys = UNION {pending[i].ks : i \in 1..Len(pending)}
                       /\ Cardinality(keys) < conf.mb \/ keys = {}
